@@ -15,6 +15,7 @@ def configs():
                 if shape == 1 and access == 0:
                     continue
                 out.append(("kind=%d" % kind, "access=%d" % access, "shape=%d" % shape))
+        out.append(("kind=%d" % kind, "access=4", "shape=3"))
     return out
 
 
